@@ -45,3 +45,90 @@ fn states_has_coord<T>(states: &[State<T>], x: u8, y: u16) -> (r: bool)
         // toggle: release if it is held, press if it is not
         action is Toggle ==> final(layout).verif_events@ == old(layout).verif_events@.push(
             if held_at(old(layout).states@, x, y) { Event::Release(x, y) } else { Event::Press(x, y) }),
+
+// ---------------------------------------------------------------------------------------
+// The TIMED forms (late): hold-for-duration and on-idle.  Each is a HashMap / HashSet method taking a
+// closure (`retain`, `entry().or_insert_with`); the closure BODIES are cut as fragments and wrapped
+// in synthetic signatures with their captures as parameters.  ASSUMED (std): retain calls the
+// closure once per entry and keeps the entry iff it returns true; entry().and_modify(f)
+// .or_insert_with(g) runs f on an existing entry and otherwise inserts g()'s value.
+// ---------------------------------------------------------------------------------------
+//@ item parser/src/custom_action.rs struct Coord
+//@@ keep-vis
+//@@ no-derives
+//@ item parser/src/custom_action.rs struct FakeKeyOnIdle
+//@@ keep-vis
+//@@ no-derives
+//@ item parser/src/custom_action.rs struct FakeKeyHoldForDuration
+//@@ keep-vis
+//@@ no-derives
+//@ raw
+impl Copy for Coord {}
+impl Clone for Coord { fn clone(&self) -> Self { *self } }
+spec fn sat_sub1(a: u16) -> u16 { if a >= 1 { (a - 1) as u16 } else { 0u16 } }
+
+// hold-for-duration, the countdown (Kanata::tick_held_vkeys): one millisecond for one pending
+// virtual key - it is released, and forgotten, exactly when its countdown reaches zero
+//@ fragment src/kanata/mod.rs fn tick_held_vkeys in `Kanata` block-after `self.vkeys_pending_release.retain(|coord, deadline| {` as vkey_countdown_one
+//@@ header
+fn vkey_countdown_one<'a, const C: usize, const R: usize, T>(layout: &mut Layout<'a, C, R, T>, coord: &Coord, deadline: &mut u16) -> bool
+//@@ resub R45 1 /match deadline \{/ => `match *deadline {`
+//@@ ret r
+//@@ spec
+    ensures
+        *final(deadline) == sat_sub1(*old(deadline)),
+        r == (*final(deadline) != 0),
+        *final(deadline) == 0 ==> final(layout).verif_events@ == old(layout).verif_events@.push(Event::Release(coord.x, coord.y)),
+        *final(deadline) != 0 ==> final(layout).verif_events@ == old(layout).verif_events@,
+
+// hold-for-duration, first activation (the `or_insert_with` closure in the custom-action handler):
+// the virtual key is pressed and its countdown starts at the configured duration
+//@ fragment src/kanata/mod.rs fn handle_keystate_changes in `Kanata` block-after `.or_insert_with(|| {` as vkey_hold_start
+//@@ header
+fn vkey_hold_start<'a, const C: usize, const R: usize, T>(layout: &mut Layout<'a, C, R, T>, fk_hfd: &FakeKeyHoldForDuration, duration: u16) -> u16
+//@@ ret r
+//@@ spec
+    ensures
+        r == duration,
+        final(layout).verif_events@ == old(layout).verif_events@.push(Event::Press(fk_hfd.coord.x, fk_hfd.coord.y)),
+
+// on-idle (Kanata::tick_idle_timeout): one pending on-idle action - it fires, through
+// handle_fakekey_action (the function under contract above: the caller is checked against that
+// contract), exactly when kanata has been idle for at least the configured time, and is then
+// forgotten; otherwise nothing happens and it stays pending
+//@ raw
+pub struct KanataLayout { pub verif_inner: Layout<'static, 1, 1, u8> }
+impl KanataLayout {
+    /// `bm(&mut self) -> &mut Layout` (a borrow of the inner layout)
+    fn bm(&mut self) -> (r: &mut Layout<'static, 1, 1, u8>)
+        ensures *r == old(self).verif_inner, final(self).verif_inner == *final(r),
+    { &mut self.verif_inner }
+}
+//@ item src/kanata/mod.rs struct Kanata
+//@@ keep-vis
+//@@ no-derives
+//@@ keep-fields layout ticks_since_idle
+//@@ resub Rpath 1 /cfg::KanataLayout/ => `KanataLayout`
+//@ raw
+/// what handle_fakekey_action queues for an action at a coordinate (its contract, as a function)
+spec fn fk_events(action: FakeKeyAction, held: bool, x: u8, y: u16) -> Seq<Event> {
+    match action {
+        FakeKeyAction::Press => seq![Event::Press(x, y)],
+        FakeKeyAction::Release => seq![Event::Release(x, y)],
+        FakeKeyAction::Tap => seq![Event::Press(x, y), Event::Release(x, y)],
+        FakeKeyAction::Toggle => seq![if held { Event::Release(x, y) } else { Event::Press(x, y) }],
+    }
+}
+//@ fragment src/kanata/mod.rs fn tick_idle_timeout in `Kanata` block-after `self.waiting_for_idle.retain(|wfd| {` as idle_fire_one
+//@@ wrap impl Kanata
+//@@ header
+fn idle_fire_one(&mut self, wfd: &FakeKeyOnIdle) -> bool
+//@@ ret r
+//@@ spec
+    ensures
+        r == !(old(self).ticks_since_idle >= wfd.idle_duration),
+        final(self).ticks_since_idle == old(self).ticks_since_idle,
+        old(self).ticks_since_idle >= wfd.idle_duration ==>
+            final(self).layout.verif_inner.verif_events@ =~= old(self).layout.verif_inner.verif_events@
+                + fk_events(wfd.action, held_at(old(self).layout.verif_inner.states@, wfd.coord.x, wfd.coord.y), wfd.coord.x, wfd.coord.y),
+        !(old(self).ticks_since_idle >= wfd.idle_duration) ==> final(self).layout == old(self).layout,
